@@ -46,7 +46,7 @@ TNext ==
     \/ (Is("FreeRet") /\ FreeRet(Ev.by, Ev.u, Ev.null, Ev.tok))
     \/ (Is("Revive") /\ Revive(Ev.by, Ev.u, Ev.arg, Ev.pool))
     \/ (Is("ReviveRet") /\ ByOK(Ev.by) /\ NoOp)
-    \/ (Is("MigReq") /\ MigReq(Ev.by, Ev.u, Ev.tgt))
+    \/ (Is("MigReq") /\ MigReq(Ev.by, Ev.u, Ev.tgt, {Ev.has[i] : i \in DOMAIN Ev.has}))
     \/ (Is("MigRet") /\ MigRet(Ev.by, Ev.u, Ev.ret))
     \/ (Is("MigCb") /\ MigCb(Ev.u))
     \/ (Is("MigCount") /\ MigCount(Ev.u, Ev.n))
